@@ -136,6 +136,10 @@ Definition step (mask : nat) (t : nat) (s : st) : st * list ev :=
        [EWr t (pr + mask + 1); EDoneC t pr d])
   end.
 
+(* a thread between its winning CAS and its final store *)
+Definition holds_ticket (p : pc) : bool :=
+  match p with P4 _ _ | P5 _ _ | C4 _ | C5 _ _ => true | _ => false end.
+
 (* uMPMC_Ptr_Queue::init(nqueues, size): nqueues is raised to 2 and then to a power of two *)
 Fixpoint next_pow2_loop (fuel x p : nat) : nat :=       (* p=1; while (x>p) p <<= 1; *)
   match fuel with
